@@ -52,6 +52,35 @@ type Transfer struct {
 	Users           map[int32]mapping
 	Groups          map[int32]mapping
 	retouchDirPerms bool
+	// closed when the generator / receiver goroutine started by Do returned
+	goroutines []<-chan struct{}
+}
+
+// CloseDestRoot closes DestRoot once the generator and receiver goroutines
+// started by Do have returned. After Do returned an error, one of them may
+// still be blocked on the connection; when the connection is closed, its
+// deferred clean-up (removing the temporary file of the transfer in
+// progress) still needs the root.
+func (rt *Transfer) CloseDestRoot() error {
+	root := rt.DestRoot
+	if root == nil {
+		return nil
+	}
+	pending := rt.goroutines
+	for _, done := range pending {
+		select {
+		case <-done:
+		default:
+			go func() {
+				for _, done := range pending {
+					<-done
+				}
+				root.Close()
+			}()
+			return nil
+		}
+	}
+	return root.Close()
 }
 
 func (rt *Transfer) listOnly() bool { return rt.Dest == "" }
